@@ -968,7 +968,7 @@ def shard(arg):
 
 def run(ctx):
     nsh = 16
-    per = ctx.n(300, 4000)
+    per = ctx.n(200, 4000)
     res = Result()
     for r in pmap('harness.props.c19', 'shard', [(ctx.seed, i, per) for i in range(nsh)]):
         res.merge(r)
